@@ -345,6 +345,8 @@ class Body:
                     # field of an aggregate we can see through
                     if e.k == "agg" and e.args is not None and pr["f"] < len(e.args) and e.ak in ("tuple", "adt"):
                         e = e.args[pr["f"]]
+                    elif e.k == "bin" and e.op.endswith("WithOverflow") and pr["f"] == 0:
+                        e = E("bin", op=e.op[:-len("WithOverflow")], a=e.a, b=e.b)
                     else:
                         e = E("field", a=e, name=pr.get("n"), idx=pr["f"], owner=pr.get("o"), variant=pr.get("v"))
                 elif "d" in pr:
